@@ -54,6 +54,11 @@ def gen(g, count):
             ings = [(r.choice(leaves + recs[:i]), qint(g)) for _ in range(r.randint(0, 4))]
             book.append((n, ings))
         others = [b'/'.join(g.word(2, 6, 0.15).encode() for _ in range(2)) for _ in range(2)]
+        if r.random() < 0.35:
+            # an empty category component (doubled or trailing separator) is a component like any other
+            w = lambda: g.word(2, 6, 0.15).encode()
+            a, b_ = w(), w()
+            others += r.choice([[a + b'/' + b_, a + b'//' + b_], [a + b'/' + b_ + b'/'], [a + b'//' + b_], [b'/' + a]])
         foods = recs + others + [b'calories']
         if not spec.no_prefix(foods):
             continue
